@@ -977,3 +977,7 @@ mod tests {
         assert!(debug_output.contains("test_column_name"));
     }
 }
+
+// Verification hook (inert unless built by `cargo kani`, which sets --cfg kani).
+#[cfg(kani)]
+mod verif_kani;
